@@ -143,3 +143,38 @@ Example fault_sequences_nonvacuous :
   store_ok (wit_files 1%N) (w_store w 1%N) = true /\ w_store w 1%N 1%N = Complete /\
   w_store w 1%N INDEX = Absent.
 Proof. vm_compute. repeat split; reflexivity. Qed.
+
+(* ------------------------------------------------------------------ *)
+(* Housekeeping (Model/Housekeeping.v): refresh also skips an image whose store folder holds
+   skip.flag, which `toasty pipeline ignore-rejects` writes for every directory it lists in
+   rejects/.  For every history of faulted publish runs and ignore-rejects calls in which the
+   listings hold rejected images only, an image that is not rejected is skipped by refresh only
+   when all its other files are complete in the store.  The listing hypothesis is what the code
+   must provide (rejects/ and approved/ are different directories; the correspondence run
+   executes the real ignore_rejects and refresh_impl on histories with both directories
+   populated); it is needed (second theorem).  Proofs in Proofs/HousekeepingP.v. *)
+From Toasty Require Import Model.Housekeeping Proofs.HousekeepingP.
+
+Theorem housekeeping_never_makes_refresh_skip_a_partial_image :
+  forall (files : imgid -> list name) (rejected : imgid -> bool) (ops : list hop) (h : hworld) (u : imgid),
+  (forall r, In r (runs_of ops) -> run_wf files r) -> WorldOk files (h_w h) ->
+  ignores_only rejected ops -> rejected u = false -> h_flag h u = false ->
+  refresh_skips_full (hrun true ops h) u = true ->
+  Others (files u) (w_store (h_w (hrun true ops h)) u).
+Proof. exact housekeeping_never_skips_partial. Qed.
+Print Assumptions housekeeping_never_makes_refresh_skip_a_partial_image.
+
+Theorem housekeeping_flags_rejected_images_only :
+  forall (atomic : bool) (rejected : imgid -> bool) (ops : list hop) (h : hworld),
+  ignores_only rejected ops ->
+  (forall u, rejected u = false -> h_flag (hrun atomic ops h) u = h_flag h u) /\
+  h_w (hrun atomic ops h) = run_all atomic (runs_of ops) (h_w h).
+Proof. intros a rj ops h H. split; [exact (flags_only_on_rejected a rj ops h H) | exact (hrun_world a ops h)]. Qed.
+Print Assumptions housekeeping_flags_rejected_images_only.
+
+Theorem housekeeping_listing_hypothesis_is_needed :
+  let h := hrun true wit_h_ops clean_hworld in
+  refresh_skips_full h 1%N = true /\ w_store (h_w h) 1%N 2%N = Absent /\ w_store (h_w h) 1%N INDEX = Absent /\
+  w_published (h_w h) 1%N = false.
+Proof. exact housekeeping_hypothesis_needed. Qed.
+Print Assumptions housekeeping_listing_hypothesis_is_needed.
